@@ -90,6 +90,11 @@ pub struct Inner {
     pub id_fails_for: Option<String>,
     /// The `id_for` calls that were refused: (ticket, name).
     pub id_refused: Vec<(u64, String)>,
+    /// Fault injection: the n-th (1-based) `id_for` call for this name fails with an IO error, once;
+    /// the calls before and after it are answered.
+    pub id_fails_nth: Option<(String, usize)>,
+    /// Number of `id_for` calls per name so far.
+    pub id_calls: BTreeMap<String, usize>,
 }
 
 #[derive(Clone, Default)]
@@ -148,6 +153,15 @@ impl NodePersistence for RecStore {
         g.id_requests.push((ticket(), name.to_string()));
         if g.no_ids {
             return Err(StoreError::NoStoreAvailable);
+        }
+        let nth = {
+            let c = g.id_calls.entry(name.to_string()).or_insert(0);
+            *c += 1;
+            *c
+        };
+        if g.id_fails_nth.as_ref().map_or(false, |(n, k)| n == name && *k == nth) {
+            g.id_refused.push((ticket(), name.to_string()));
+            return Err(StoreError::Io(std::io::Error::new(std::io::ErrorKind::Other, "injected id_for failure (n-th call)")));
         }
         if g.id_fails_for.as_deref() == Some(name) {
             g.id_refused.push((ticket(), name.to_string()));
